@@ -5,6 +5,11 @@ import vx
 VERIF = vx.VERIF
 
 
+# Frames whose failure is a strong hint but not by itself a violation (a new call site of `shared.push` / of the task
+# waker can be paid for by the surrounding code): they become a violation only with a failing history on the real crate.
+SOFT_FRAMES = {"c12.ready_mark_sites", "c14.wrappers_do_not_wake"}
+
+
 def load_props():
     props = {}
     for l in open(os.path.join(VERIF, "properties.jsonl")):
@@ -295,7 +300,8 @@ def run_check(pid, tier, seed):
                 return finish_undecided_or_replay(pid, tier, seed, t0, "frame %s: %s" % (row["name"], row["undecided"]), plan)
             if not row["ok"]:
                 failures_mine.append({"message": "frame condition failed: " + row["detail"], "labels": [row["name"]], "label_props": {},
-                                      "fn": row["name"], "props": [pid], "where": row.get("where"), "rendered": row["detail"]})
+                                      "fn": row["name"], "props": [pid], "where": row.get("where"), "rendered": row["detail"],
+                                      "soft": row["name"] in SOFT_FRAMES})
 
     # ------------------------------------------------------------------ thorough extras
     if tier == "thorough" and plan.get("verus", True):
@@ -313,20 +319,46 @@ def run_check(pid, tier, seed):
     if plan.get("verus", True):
         shifted_info = mp.get("anchor_shifted", [])
         shifted = set(a["fn"] for a in shifted_info)
-    tentative = [f for f in failures_mine if f.get("fn") in shifted and not f.get("found_history")]
+    tentative = [f for f in failures_mine if (f.get("fn") in shifted or f.get("soft")) and not f.get("found_history")]
     failures_mine = [f for f in failures_mine if f not in tentative]
     tentative_undecided = None
     if tentative:
         import replaydriver
-        found, cmd = replaydriver.run(pid, seed or 1, 8000, timeout=180)
-        if found is not None:
+        ok_t, found, cmd = replaydriver.search_cached(pid, seed)
+        if ok_t:
             f0 = dict(tentative[0])
-            f0["found_history"], f0["found_cmd"] = found, cmd
-            f0["message"] += " (function structure changed: %s; confirmed by a failing history on the real crate)" % "; ".join(a["what"] for a in shifted_info if a["fn"] == f0.get("fn"))
+            f0["found_history"], f0["found_cmd"] = found, (cmd or "").replace("cd /verif/replay && ", "")
+            f0["message"] += " (confirmed by a failing history on the real crate)"
             failures_mine.append(f0)
+        elif any(f.get("soft") for f in tentative):
+            tentative_undecided = "frame %s no longer holds (%s); the bounded search found no failing history for %s" % (
+                sorted(set(f.get("fn") for f in tentative if f.get("soft"))), "; ".join(f["rendered"][:200] for f in tentative if f.get("soft")), pid)
         else:
             tentative_undecided = "structure of %s changed (%s) and its proof no longer goes through; the bounded search found no failing history" % (
                 sorted(set(f.get("fn") for f in tentative)), "; ".join(a["what"] for a in shifted_info))
+    # ---- functions of this property whose proof has a failed MID-BODY obligation (assertion, invariant, callee precondition,
+    # overflow) attributed to other properties only: Verus assumes a failed obligation afterwards, so the clauses this
+    # property has in those functions are no longer established.  Violation only with a failing history, else undecided.
+    affected_undecided = None
+    if plan.get("verus", True) and not failures_mine:
+        mine_fns = set()
+        masking_fns = {}
+        for f in failures_all:
+            if pid in f.get("props", []):
+                mine_fns.add(f.get("fn"))
+            if not str(f.get("message", "")).startswith("postcondition"):
+                masking_fns.setdefault(f.get("fn"), []).extend(f.get("labels") or ["(unlabelled)"])
+        aff = [ff["fn"] for ff in mp["functions"] if ff["fn"] in masking_fns and pid in ff["props"] and ff["fn"] not in mine_fns]
+        if aff:
+            import replaydriver
+            ok_a, found, cmd = replaydriver.search_cached(pid, seed)
+            labs = sorted(set(l for fn in aff for l in masking_fns[fn]))
+            if ok_a:
+                failures_mine.append({"message": "function(s) %s no longer verify (failed obligations: %s) and the bounded search found a failing history for %s" % (aff, labs, pid),
+                                      "labels": [aff[0]], "label_props": {}, "fn": aff[0], "props": [pid], "where": None, "rendered": "", "source": "verus",
+                                      "found_history": found, "found_cmd": (cmd or "").replace("cd /verif/replay && ", "")})
+            else:
+                affected_undecided = "the proof of %s has failed obligations (%s) attributed to other properties; its clauses for %s are therefore not established, and the bounded search found no failing history for %s" % (aff[:3], labs[:4], pid, pid)
     kf_lines, violations = [], []
     for f in failures_mine:
         hit = next((k for k in known.get("findings", []) if k["property"] == pid and finding_matches(k, f)), None)
@@ -388,8 +420,8 @@ def run_check(pid, tier, seed):
         rc = 1
     for l in kf_lines:
         print(l)
-    if rc == 0 and (tentative_undecided or collateral_undecided):
-        return undecided(pid, tier, seed, t0, tentative_undecided or collateral_undecided)
+    if rc == 0 and (tentative_undecided or collateral_undecided or affected_undecided):
+        return undecided(pid, tier, seed, t0, tentative_undecided or collateral_undecided or affected_undecided)
 
     level = plan.get("level", "proof")
     # bounded units (Kani harnesses with a bound, replay stand-ins) and syntactic frames decide together with the proof, but
